@@ -76,6 +76,19 @@ AReturn  == CReturn /\ Log
 AArrive  == CArrive /\ Log
 ANext == AStart \/ AAccept \/ AClose \/ ASend \/ AReceive \/ ARaise \/ AReturn \/ AArrive
 
+(* per-action coverage without TLC's -coverage (whose report is prohibitively slow on this module):
+   every fired action announces itself; the harness requires all eight names *)
+Fired(name) == PrintT(<<"FIRED", name>>)
+VStart   == XStart /\ Fired("XStart")
+VAccept  == XAccept /\ Fired("XAccept")
+VClose   == XClose /\ Fired("XClose")
+VSend    == XSend /\ Fired("XSend")
+VReceive == XReceive /\ Fired("XReceive")
+VRaise   == XRaise /\ Fired("XRaise")
+VReturn  == XReturn /\ Fired("XReturn")
+VArrive  == XArrive /\ Fired("XArrive")
+CovNext == VStart \/ VAccept \/ VClose \/ VSend \/ VReceive \/ VRaise \/ VReturn \/ VArrive
+
 MCOneAtATime == [][Len(got') <= Len(got) + 1]_mcvars
 (* `last` is write-only (no action reads it), so states are identified without it (VIEW) and the
    clauses that talk about the last step are checked on every transition instead *)
